@@ -5,8 +5,8 @@
 // C11/C12 "no GARBAGE reaches the output", C01/C03 "every limb of the operand reaches the output".
 pub struct Src { pub obj: int, pub col: int, pub limb: int }
 pub open spec fn GARBAGE() -> Src { Src { obj: -1, col: 0, limb: 0 } }
-pub open spec fn clean(d: Set<Src>) -> bool { !d.contains(GARBAGE()) }
+pub open spec fn clean(d: ISet<Src>) -> bool { !d.contains(GARBAGE()) }
 // dependency set of a coefficient-domain limb: an uninterpreted attribute of its contents (VecZnx limbs are real i64 data in the prelude)
-pub uninterp spec fn depl(L: Seq<i64>) -> Set<Src>;
+pub uninterp spec fn depl(L: Seq<i64>) -> ISet<Src>;
 // union of the dependency sets f(0), .., f(n-1)
-pub open spec fn dunion(f: spec_fn(int) -> Set<Src>, n: int) -> Set<Src> { Set::new(|s: Src| exists|l: int| 0 <= l < n && #[trigger] f(l).contains(s)) }
+pub open spec fn dunion(f: spec_fn(int) -> ISet<Src>, n: int) -> ISet<Src> { ISet::new(|s: Src| exists|l: int| 0 <= l < n && #[trigger] f(l).contains(s)) }
